@@ -31,13 +31,7 @@ use std::time::{Duration, Instant};
 use tree::*;
 
 const F_ALLOC: &str = "C14-jacoco-branch-vector-alloc";
-/// `get_xml_attribute(.., "sourcefilename").unwrap_or(format!("{}.java", top_class))` swallows EVERY
-/// error of the lookup, also "the value cannot be decoded": in a report that is not UTF-8 (ISO-8859-1
-/// with `encoding="ISO-8859-1"`, well-formed XML) a class whose `sourcefilename` has a non-ASCII
-/// character is silently attributed to `<TopLevelClass>.java` instead of an error. Matcher: Latin-1
-/// rendering of a generated document; the result is `Ok` and equals the meaning of the document in
-/// which exactly the classes with an undecodable `sourcefilename` value have lost that attribute.
-const F_SFN: &str = "C10-undecodable-sourcefilename-falls-back";
+
 /// Observations OUTSIDE the property's quantifier ("methods with names unique within their class",
 /// "the method's line attribute"): such documents are generated, run on the real parser and tied
 /// to the model, but the property oracle does not judge them; they are counted as
@@ -293,6 +287,46 @@ fn corpus_findings(rep: &mut Report, cases: &mut Vec<Case>) {
         cases.push(Case { stream: format!("corpus.{}", name), request: request_of(&events), xml: xml.to_vec(), spec: None, imp, child: false, timeout_ms: 0 });
     }
 }
+/// corpus/C10/*.json: minimised past failures (`case.xml_hex`, the outcome the property calls for in
+/// `case.spec`, `case.tie` = whether the bytes are inside the model: valid UTF-8), replayed first;
+/// each must hold on the current tree and, when tied, agree with the model
+fn corpus_files(rep: &mut Report, cases: &mut Vec<Case>) {
+    let mut files: Vec<PathBuf> = std::fs::read_dir("/verif/corpus/C10")
+        .map(|d| d.filter_map(|e| e.ok().map(|e| e.path())).collect())
+        .unwrap_or_default();
+    files.retain(|p| p.extension().map(|e| e == "json").unwrap_or(false));
+    files.sort();
+    for p in files {
+        let v: Value = match std::fs::read_to_string(&p).ok().and_then(|t| serde_json::from_str(&t).ok()) {
+            Some(v) => v,
+            None => {
+                rep.notes.push(format!("corpus file {} is not JSON", p.display()));
+                continue;
+            }
+        };
+        let case = &v["case"];
+        let (Some(xh), Some(spec)) = (case["xml_hex"].as_str(), case["spec"].as_str()) else {
+            rep.notes.push(format!("corpus file {} is not a C10 jacoco case", p.display()));
+            continue;
+        };
+        let xml = unhex(xh);
+        let imp = run_impl(&xml);
+        rep.case(&format!("corpus.file {}", xh), true);
+        rep.count("corpus.files");
+        if imp != spec {
+            rep.fail(
+                "oracle",
+                None,
+                format!("corpus case {}: parse_jacoco_xml_report gives '{}' instead of '{}'", p.display(), imp, spec),
+                case.clone(),
+            );
+        }
+        if case["tie"].as_bool().unwrap_or(false) {
+            let events = qx_events(&xml).unwrap_or_default();
+            cases.push(Case { stream: "corpus.file".into(), request: request_of(&events), xml, spec: Some(spec.to_string()), imp, child: false, timeout_ms: 0 });
+        }
+    }
+}
 fn render(doc: &Doc) -> Vec<u8> {
     xml_of(&tokens(&lower(doc)))
 }
@@ -383,6 +417,7 @@ pub fn run(rep: &mut Report) {
 
     let mut cases: Vec<Case> = vec![];
     let mut isj_samples: Vec<Vec<u8>> = vec![];
+    corpus_files(rep, &mut cases);
     corpus_findings(rep, &mut cases);
 
     // ---- truncation between elements inside a package: `err Parse` since 34e25d5 (in-process, under
@@ -696,30 +731,6 @@ pub fn run(rep: &mut Report) {
     }
 }
 
-/// removes the `sourcefilename` of every class whose raw attribute value has a non-ASCII character
-/// (undecodable once the document is written in ISO-8859-1); returns how many
-fn drop_undecodable_sfn(items: &mut Vec<TItem>) -> usize {
-    let mut n = 0;
-    for it in items.iter_mut() {
-        match it {
-            TItem::Package(p) => {
-                for pi in p.body.iter_mut() {
-                    if let PItem::Class(c) = pi {
-                        let raw_bad = c.shell.attr("sourcefilename").map(|a| !a.raw.is_ascii()).unwrap_or(false);
-                        if c.sfn.is_some() && raw_bad {
-                            c.sfn = None;
-                            n += 1;
-                        }
-                    }
-                }
-            }
-            TItem::Wrap(_, b) => n += drop_undecodable_sfn(b),
-            TItem::Junk(_) => {}
-        }
-    }
-    n
-}
-
 fn truncate_str(s: &str, n: usize) -> String {
     s.chars().take(n).collect()
 }
@@ -728,7 +739,9 @@ fn truncate_str(s: &str, n: usize) -> String {
 /// its `encoding` feature, so a report in another encoding is read as bytes. What the reader does
 /// with one: UTF-16 (BOM, every markup byte followed/preceded by 00) never shows an element it knows
 /// - `Ok([])`, a silent empty result (observation, counted) - or an error; ISO-8859-1 reads like the
-/// UTF-8 twin while the names the parser decodes are ASCII, and is `Err` as soon as one is not.
+/// UTF-8 twin while the names the parser decodes are ASCII, and is `Err` as soon as one is not (since
+/// /repo 276971e also for a class's `sourcefilename`: former finding
+/// C10-undecodable-sourcefilename-falls-back, witnesses in corpus/C10).
 /// Oracle: error or empty (UTF-16) / error or the document's meaning (Latin-1) - never a wrong record.
 fn encoding_ties(rep: &mut Report, rng: &mut Rng) {
     let n = rep.budget(120, 10);
@@ -785,26 +798,13 @@ fn encoding_ties(rep: &mut Report, rng: &mut Rng) {
                 let imp = run_impl(&bytes);
                 rep.case(&fhex(&bytes), true);
                 let ascii = bytes.is_ascii();
-                let mut kind = if imp == spec {
+                let kind = if imp == spec {
                     if ascii { "ascii_same_as_utf8" } else { "non_ascii_only_in_unread_places" }
                 } else if imp.starts_with("err") && !ascii {
                     "error"
                 } else {
                     "WRONG"
                 };
-                if kind == "WRONG" && imp.starts_with("ok") {
-                    let mut d2 = doc.clone();
-                    if drop_undecodable_sfn(&mut d2.top) > 0 && imp == spec_of(&d2) {
-                        kind = "finding.undecodable_sourcefilename_falls_back";
-                        rep.count(F_SFN);
-                        rep.fail(
-                            "oracle",
-                            Some(F_SFN),
-                            "ISO-8859-1 report: a <class> whose sourcefilename value is not valid UTF-8 is silently attributed to <TopLevelClass>.java (the decoding error is swallowed by unwrap_or) instead of Err".into(),
-                            json!({"op": "finding.c10", "finding": F_SFN, "stream": "ties.encoding.latin1", "xml_hex": fhex(&bytes), "xml": full, "impl": imp, "spec": "err Parse"}),
-                        );
-                    }
-                }
                 rep.count(&format!("ties.encoding.latin1.{}", kind));
                 if kind == "WRONG" {
                     rep.fail(
@@ -913,13 +913,7 @@ pub fn replay(rep: &mut Report, case: &Value) {
             let xml = unhex(&s("xml_hex"));
             let imp = run_impl(&xml);
             rep.case(&fhex(&xml), true);
-            let id = if s("finding") == F_ALLOC {
-                Some(F_ALLOC)
-            } else if s("finding") == F_SFN {
-                Some(F_SFN)
-            } else {
-                None
-            };
+            let id = if s("finding") == F_ALLOC { Some(F_ALLOC) } else { None };
             if imp == s("impl") {
                 rep.fail("oracle", id, format!("the recorded witness still gives '{}'", imp), case.clone());
             }
